@@ -327,24 +327,36 @@ fn infeasible_after_feasible_life<K: Kit>(sc: &Scenario, seq: &[u8], rep: &mut R
     rep.count("evaluations", 1);
     rep.count("transitions", 2 * seq.len() as u64);
     let run = guarded(|| {
-        let mut rig = Rig::<K>::new(sc, false);
-        seams::set_valid_cap(50_000_000);
-        let free = std::sync::Arc::new(crate::scen::build_world::<K>(&sc.spec, &WorldSpec { name: "free".into(), obst: vec![] }));
-        rig.drv.setup(rig.pd.clone(), free);
-        let found = if rig.is_prm() {
-            let _ = rig.construct(seq);
-            rig.drv.solve(LONG).is_ok()
-        } else {
-            rig.feed(seq).iter().any(|(r, _)| r.is_ok())
-        };
-        let (pd, w) = (rig.pd.clone(), rig.world.clone());
-        rig.drv.setup(pd, w);
-        let res = if rig.is_prm() {
-            let _ = rig.construct(seq);
-            vec![rig.drv.solve(LONG).map(|p| p.len())]
-        } else {
-            rig.feed(seq).into_iter().map(|(r, _)| r.map(|p| p.len())).collect::<Vec<_>>()
-        };
+        let mut found = false;
+        let mut res = Vec::new();
+        // (second variant, RRT-Connect: the goal sampler fails once, exactly at the call the re-setup makes - whatever
+        // the failed re-setup leaves of the first life's goal tree must not be planned with)
+        for fail_at_resetup in [false, true] {
+            if fail_at_resetup && sc.params.pk != Pk::Connect {
+                continue;
+            }
+            let mut rig = Rig::<K>::new(sc, false);
+            seams::set_valid_cap(50_000_000);
+            let free = std::sync::Arc::new(crate::scen::build_world::<K>(&sc.spec, &WorldSpec { name: "free".into(), obst: vec![] }));
+            rig.drv.setup(rig.pd.clone(), free);
+            found |= if rig.is_prm() {
+                let _ = rig.construct(seq);
+                rig.drv.solve(LONG).is_ok()
+            } else {
+                rig.feed(seq).iter().any(|(r, _)| r.is_ok())
+            };
+            let (pd, w) = (rig.pd.clone(), rig.world.clone());
+            if fail_at_resetup {
+                rig.goal.fail_at.set(Some((rig.goal.calls.get(), 0)));
+            }
+            rig.drv.setup(pd, w);
+            if rig.is_prm() {
+                let _ = rig.construct(seq);
+                res.push(rig.drv.solve(LONG).map(|p| p.len()));
+            } else {
+                res.extend(rig.feed(seq).into_iter().map(|(r, _)| r.map(|p| p.len())));
+            }
+        }
         (found, res)
     });
     match run {
@@ -578,6 +590,15 @@ fn jobs(tier: &str) -> Vec<Job> {
                         sc.alphabet = sc.goal_samples.clone();
                         out.push(Job { sc, part: 3, letters: (0..b.goal_samples.len() as u8).collect(), depth: if thorough { 6 } else { 4 } });
                     }
+                }
+            }
+            // (3''') the start stored in a NON-CANONICAL representation (angle + 4 pi, -q): the sealed goal stays sealed
+            if let Some(start) = crate::props_paths::noncanonical(&b.alphabet[b.start]) {
+                for sm in [1.0, 1e6] {
+                    let smm = if pk == Pk::Prm && sm == 1.0 { 1.6 } else { sm };
+                    let mut sc = b.scenario(b.world_named("goal-sealed-off", vec![b.seal_goal.clone()]), b.params(pk, smm, 2.5, 0.0), &format!("C06/infeasible/{kit}/goal-sealed-off/non-canonical-start/{}x{sm}", pk.name()));
+                    sc.start = start.clone();
+                    out.push(Job { sc, part: 3, letters: (0..b.alphabet.len() as u8).collect(), depth: if deep { 3 } else { 2 } });
                 }
             }
             for w in &inf {
